@@ -74,6 +74,17 @@ func TestC11(t *testing.T) {
 			pool = gen.PoolOf(certs...)
 			gen.Class("pool:other-edition-of-the-root-first")
 		}
+		// a trust bundle that also lists the issuing CA's certificate (people put whole chains into bundles)
+		switch rapid.SampledFrom([]string{"no", "no", "no", "first", "last"}).Draw(t, "bundleAlsoListsTheIssuingCA") {
+		case "first":
+			certs = append([]*gen.Cert{w.PKI.Int}, certs...)
+			pool = gen.PoolOf(certs...)
+			gen.Class("pool:also-lists-the-issuing-ca")
+		case "last":
+			certs = append(certs, w.PKI.Int)
+			pool = gen.PoolOf(certs...)
+			gen.Class("pool:also-lists-the-issuing-ca")
+		}
 		msg := w.Q.ToProto()
 		// one options value carried through the levels (as a caller raising the checking level would do)
 		shared := w.Options(gen.LvlBase, w.NewGetter(), pool)
